@@ -239,6 +239,7 @@ class Extractor:
         self.force_external = False
         self.obligation_items = []  # names of extracted fns
         self.contracts = {}         # named contract text shared by several fn directives
+        self.canary_tmpl_items = []
 
     def src(self, rel):
         if rel not in self.sources:
@@ -290,7 +291,12 @@ class Extractor:
                     if s == '':
                         continue
                     raise ValueError('%s:%d: template text inside a fn directive' % (tname, ln))
-                self.out.emit(raw, 'tmpl', self._tmpl_item(raw), tname, ln)
+                item = self._tmpl_item(raw)
+                if '/*CANARY*/' in raw:
+                    # vacuity guard for template exec functions (theorems): in canary mode they must fail here
+                    self.canary_tmpl_items.append(item)
+                    raw = raw.replace('/*CANARY*/', 'proof { assert(false); } // CANARY' if self.canary else '')
+                self.out.emit(raw, 'tmpl', item, tname, ln)
                 continue
             d = s[3:].strip()
             if d.startswith('|'):
